@@ -34,18 +34,67 @@ def _worker(args):
         raise core.Infra('worker failed:\n' + traceback.format_exc())
 
 
+def _child(modname, cases, conn):
+    try:
+        conn.send(('ok', _worker((modname, cases))))
+    except BaseException as e:  # noqa
+        conn.send(('err', repr(e) + '\n' + traceback.format_exc()))
+    finally:
+        conn.close()
+
+
+def evaluate_isolated(modname, cases):
+    """evaluate in a forked child; if the child dies (signal) bisect down to the crashing case, which becomes a
+    finding: a crash of the interpreter is a violation of every property (no result is delivered)"""
+    ctx = mp.get_context('fork')
+    parent, child = ctx.Pipe(duplex=False)
+    pr = ctx.Process(target=_child, args=(modname, cases, child))
+    pr.start()
+    child.close()
+    msg = None
+    try:
+        if parent.poll(3600):
+            msg = parent.recv()
+    except EOFError:
+        msg = None
+    pr.join(30)
+    if pr.is_alive():
+        pr.kill()
+    if msg is not None and msg[0] == 'ok':
+        return msg[1]
+    if msg is not None and msg[0] == 'err':
+        raise core.Infra('worker failed: ' + msg[1])
+    if len(cases) == 1:
+        return [dict(findings=[dict(kind='property', key=f'crash:exit{pr.exitcode}',
+                                    detail=dict(exitcode=pr.exitcode, note='the worker process died while evaluating this case'))],
+                     nontrivial=True, sig='crash', tags=dict(outcome='crash'))]
+    h = len(cases) // 2
+    return evaluate_isolated(modname, cases[:h]) + evaluate_isolated(modname, cases[h:])
+
+
 def evaluate_parallel(mod, cases, nproc=NPROC):
     if not cases:
         return []
     n = max(1, min(nproc, (len(cases) + 7) // 8))
     if n == 1:
-        return mod.evaluate(cases)
+        return evaluate_isolated(mod.__name__, cases)
     # round-robin chunks (heavy block cases sit together at the front of the list), results restored in order
     nch = min(len(cases), n * 6)
     idx = [list(range(k, len(cases), nch)) for k in range(nch)]
+    from concurrent.futures import ProcessPoolExecutor
+    from concurrent.futures.process import BrokenProcessPool
     ctx = mp.get_context('fork')
-    with ctx.Pool(n) as pool:
-        outs = pool.map(_worker, [(mod.__name__, [cases[i] for i in ix]) for ix in idx], chunksize=1)
+    outs = [None] * nch
+    try:
+        with ProcessPoolExecutor(n, mp_context=ctx) as ex:
+            futs = [ex.submit(_worker, (mod.__name__, [cases[i] for i in ix])) for ix in idx]
+            for k, f in enumerate(futs):
+                outs[k] = f.result()
+    except BrokenProcessPool:
+        core.log('a worker process died: re-running the unfinished chunks in isolated children')
+        for k, ix in enumerate(idx):
+            if outs[k] is None:
+                outs[k] = evaluate_isolated(mod.__name__, [cases[i] for i in ix])
     res = [None] * len(cases)
     for ix, o in zip(idx, outs):
         for i, r in zip(ix, o):
@@ -82,7 +131,12 @@ def run_property(modname: str, tier: str, seed: int, replay: str | None = None) 
     mod = importlib.import_module(modname)
     pid = mod.ID
     src = core.stage_build()
-    lean = core.lean_obligations(pid, getattr(mod, 'LEAN_TARGETS', None))
+    ftargets, fthms = [], {}
+    for fname in getattr(mod, 'FOUNDATIONS', []):
+        fmod = importlib.import_module(fname)
+        ftargets += list(getattr(fmod, 'LEAN_TARGETS', []))
+        fthms.update(getattr(fmod, 'THEOREMS', {}))
+    lean = core.lean_obligations(pid, list(getattr(mod, 'LEAN_TARGETS', None) or []) + ftargets, fthms)
     if not lean.get('driver_ok', False):
         # without a driver nothing can be compared; report the broken obligation
         rp = core.write_replay(pid, dict(property=pid, broken='lean build (driver)', problems=lean['problems'],
